@@ -738,7 +738,7 @@ impl Check for C16 {
         vec![
             "results are compared through Debug/Display text, stream states through (draw count, typed-trace digest, next word)".into(),
             "Generation::serial_next/par_next deliberately use rand::rng() (C09's 'live randomness') and are not part of this registry".into(),
-            "R4 (the registry under several Miri seeds) is not run by this binary".into(),
+            "R4 (the registry under several Miri seeds) is run by tools/c16_miri.py after this binary and merged into the same evidence file".into(),
             "an operation that panics is not a determinism finding here (C06/C10/C11 own 'never panics')".into(),
         ]
     }
